@@ -51,6 +51,7 @@ func vfH_C16_rotate() {
 		for _, l := range vfHolders(env.manager(vfKey(k))) {
 			if live.n < 6 {
 				live.keys[live.n], live.ids[live.n], live.depth[live.n] = l.command.LockKey, l.command.LockId, l.locked
+				live.vals[live.n] = string(env.manager(vfKey(k)).GetLockData())
 				live.n++
 			}
 		}
